@@ -70,7 +70,7 @@ def modelDescent : List IRow := [
   IRow.call "InternalizeRefs" "onlyIf" "refNameResolver == nil" "",
   IRow.call "InternalizeRefs" "onlyIf" "components := doc.Components; components != nil" "",
   IRow.call "InternalizeRefs" "addSchemaToSpec" "schema" "false",
-  IRow.call "InternalizeRefs" "onlyIf" "schema != nil" "",
+  IRow.call "InternalizeRefs" "onlyIf" "schema != nil && schema.Value != nil" "",
   IRow.call "InternalizeRefs" "derefSchema" "schema.Value" "isExternal",
   IRow.call "InternalizeRefs" "addParameterToSpec" "p" "false",
   IRow.call "InternalizeRefs" "onlyIf" "p != nil && p.Value != nil" "",
@@ -98,24 +98,32 @@ def rfOK : RFRow → Bool
   | .field s f r => r || knownUnread.contains (s, f)
   | .unrecognised _ => false
 
-/-- each add…ToSpec method with the member of `doc.Components` that is its kind's own map and the text it must write -/
-def addKind : List (String × String × String) := [
-  ("addSchemaToSpec", "Schemas", "#/components/schemas/"),
-  ("addParameterToSpec", "Parameters", "#/components/parameters/"),
-  ("addHeaderToSpec", "Headers", "#/components/headers/"),
-  ("addRequestBodyToSpec", "RequestBodies", "#/components/requestBodies/"),
-  ("addResponseToSpec", "Responses", "#/components/responses/"),
-  ("addSecuritySchemeToSpec", "SecuritySchemes", "#/components/securitySchemes/"),
-  ("addExampleToSpec", "Examples", "#/components/examples/"),
-  ("addLinkToSpec", "Links", "#/components/links/"),
-  ("addCallbackToSpec", "Callbacks", "#/components/callbacks/")]
+/-- each add…ToSpec method with the member of `doc.Components` that is its kind's own map, the text it must write and the
+name of its wrapper parameter -/
+def addKind : List (String × String × String × String) := [
+  ("addSchemaToSpec", "Schemas", "#/components/schemas/", "s"),
+  ("addParameterToSpec", "Parameters", "#/components/parameters/", "p"),
+  ("addHeaderToSpec", "Headers", "#/components/headers/", "h"),
+  ("addRequestBodyToSpec", "RequestBodies", "#/components/requestBodies/", "r"),
+  ("addResponseToSpec", "Responses", "#/components/responses/", "r"),
+  ("addSecuritySchemeToSpec", "SecuritySchemes", "#/components/securitySchemes/", "ss"),
+  ("addExampleToSpec", "Examples", "#/components/examples/", "e"),
+  ("addLinkToSpec", "Links", "#/components/links/", "l"),
+  ("addCallbackToSpec", "Callbacks", "#/components/callbacks/", "c")]
+
+/-- the early return of every add…ToSpec (nil wrapper, wrapper without value since 05c5875, text not external): the first
+branch of the model's `addCore` -/
+def addGuard (v : String) : String :=
+  v ++ " == nil || " ++ v ++ ".Value == nil || !isExternalRef(" ++ v ++ ".Ref, parentIsExternal)"
 
 /-- a row of `internalizedAdd` uses the kind's own map (lookup, nil test, initialisation, store) / writes the kind's own
-prefix — the model has ONE `addCore` that looks up and stores under the cell's own collection -/
+prefix / is the early return as modelled — the model has ONE `addCore` that looks up and stores under the cell's own
+collection -/
 def addRowOK : IRow → Bool
   | .call fn what arg _ =>
     (match addKind.find? (·.1 == fn) with
-     | some (_, m, pre) => if what == "prefix" then arg == pre else arg == m
+     | some (_, m, pre, v) =>
+       if what == "prefix" then arg == pre else if what == "guard" then arg == addGuard v else arg == m
      | none => false)
   | .unrecognised _ => false
 
@@ -129,8 +137,8 @@ def rowWhat : IRow → String
 /-- the order of the steps inside one add…ToSpec: the existence test, the early rewrite, creation of the map, store, rewrite
 (addCallbackToSpec has no existence test: it overwrites) -/
 def addSteps (fn : String) : List String :=
-  if fn == "addCallbackToSpec" then ["niltest", "init", "prefix", "store"]
-  else ["lookup", "prefix", "niltest", "init", "store", "prefix"]
+  if fn == "addCallbackToSpec" then ["guard", "niltest", "init", "prefix", "store"]
+  else ["guard", "lookup", "prefix", "niltest", "init", "store", "prefix"]
 
 def addShapeOK (rows : List IRow) : Bool :=
   addKind.all fun e => ((rows.filter (fun r => rowFn r == e.1)).map rowWhat) == addSteps e.1
